@@ -295,13 +295,48 @@ theorem render_inv (w : World) (r : Bool) (hi : Inv w) (hn : KeyFun w.ps.next) :
     exact frame_table w.term w.imgs { w.ps with refresh := w.ps.refresh || r } hi.2 hn hi.1 k
   · exact hn
 
+set_option linter.unusedSimpArgs false in
+/-- The regenerated `writeTo` body does what the standard one does (SEMANTIC: evaluated on both values of the flag and a
+    symbolic buffer, so a harmless reordering of its statements still passes). -/
+theorem writeGen_std (k : KBuf) : writeWith kittyWriteBody k = writeWith stdWriteBody k := by
+  cases k with
+  | mk buf up =>
+    cases up <;>
+      simp [writeWith, runBody, kittyWriteBody, stdWriteBody, runStmt, runAct, runActs]
+
+set_option linter.unusedSimpArgs false in
+/-- The regenerated upload side of `Resize` does what the standard one does (semantic, as above). -/
+theorem resizeGen_std (k : KBuf) (e : Nat) : resizeWith kittyResizeBody k e = resizeWith stdResizeBody k e := by
+  cases k with
+  | mk buf up =>
+    cases up <;>
+      simp [resizeWith, runBody, kittyResizeBody, stdResizeBody, runStmt, runAct, runActs]
+
+theorem emitEv_congr (kitty : Nat → Bool) (b1 b2 : List KStmt) (h : ∀ k, writeWith b1 k = writeWith b2 k) :
+    emitEv kitty b1 = emitEv kitty b2 := by
+  funext st ev
+  cases ev with
+  | del p => rfl
+  | wr p => simp only [emitEv, h]
+
+theorem emit_congr (kitty : Nat → Bool) (b1 b2 : List KStmt) (h : ∀ k, writeWith b1 k = writeWith b2 k) :
+    emit kitty b1 = emit kitty b2 := by
+  funext imgs evs
+  unfold emit
+  rw [emitEv_congr kitty b1 b2 h]
+
 theorem step_std (w : World) (op : WOp) :
-    w.step op = World.stepWith stdOrder stdShape (fun a b => a == b) kittyResizeBody stdWriteBody w op := by
+    w.step op = World.stepWith stdOrder stdShape (fun a b => a == b) stdResizeBody stdWriteBody w op := by
   have h1 : renderOrder = stdOrder := by decide
   have h2 : renderShape = stdShape := by decide
-  have h3 : kittyWriteBody = stdWriteBody := by decide
   unfold World.step
-  rw [h1, h2, h3, same_std]
+  rw [h1, h2, same_std]
+  cases op with
+  | resize id ok => simp only [World.stepWith, resizeGen_std]
+  | draw p => rfl
+  | clear => rfl
+  | render => simp only [World.stepWith, World.render, emit_congr _ _ _ writeGen_std]
+  | refresh => simp only [World.stepWith, World.render, emit_congr _ _ _ writeGen_std]
 
 theorem run_inv (ops : List WOp) : ∀ w : World, Inv w → FramesKeyFun w.ps.next ops → Inv (w.run ops) := by
   induction ops with
